@@ -112,3 +112,58 @@ def run(run: Run, prog: Program, seed: int) -> None:
         "reported_sites": [f"{r['site']} -> {r['by']}" for r in results if r["reported"]][:60],
         "silent_sites": [r["site"] for r in results if not r["reported"]][:80],
     }
+
+
+# ---------------------------------------------------------------------------------------------- metamorphic stability
+def _meta_eval(args) -> dict:
+    root, pid, op = args
+    from geolint import checks, metamorph
+
+    try:
+        base = Program(root=root)
+        srcs, sites = {}, 0
+        for m in base.modules.values():
+            new, k = metamorph.transform(m.source, op)
+            if k:
+                srcs[m.rel] = new
+                sites += k
+        prog = Program(root=root, sources=srcs)
+        scratch = Run(prop=pid, quiet=True, write_evidence=False)
+        checks.REGISTRY[pid](scratch, prog)
+        from geolint.report import PROVEN, UNDECIDED
+
+        return {"operator": op, "sites": sites, "violations": [f"{o.rule}@{o.construct}: {o.stmt[:60]}" for o in scratch.violations()],
+                "errors": scratch.errors[:3], "proven": sum(1 for o in scratch.obligations if o.verdict == PROVEN),
+                "undecided": sum(1 for o in scratch.obligations if o.verdict == UNDECIDED)}
+    except Exception as e:  # noqa: BLE001
+        return {"operator": op, "sites": 0, "violations": [], "errors": [f"crash: {type(e).__name__}: {e}"], "proven": 0, "undecided": 0}
+
+
+def run_metamorphic(run: Run, prog: Program) -> None:
+    """Thorough tier: the rules of this property are re-run on semantics-preserving rewrites of the whole package (one tree per
+    operator of geolint/metamorph.py, in memory). A verdict that differs from the one on the tree as written shows that a rule
+    reads the spelling of a statement; it is reported in the evidence (and as a NOTE line), never as a violation of the property."""
+    from geolint import metamorph
+    from geolint.report import PROVEN, UNDECIDED
+
+    ops = [o for o in metamorph.OPERATORS]
+    jobs = [(prog.root, run.prop, op) for op in ops]
+    with ProcessPoolExecutor(max_workers=min(16, os.cpu_count() or 1, len(jobs))) as ex:
+        results = list(ex.map(_meta_eval, jobs))
+    base_viol = {f"{o.rule}@{o.construct}: {o.stmt[:60]}" for o in run.violations()}
+    base_proven = sum(1 for o in run.obligations if o.verdict == PROVEN)
+    unstable = []
+    for r in results:
+        extra = [v for v in r["violations"] if v not in base_viol]
+        if (extra and not base_viol) or r["errors"]:
+            unstable.append({"operator": r["operator"], "new_violations": extra[:5], "errors": r["errors"]})
+    run.stats["metamorphic"] = {
+        "what": "rules of this property re-run on behaviour-preserving rewrites of the whole package (geolint/metamorph.py); a stable rule "
+                "gives no violation that the tree as written does not give. `proven`/`undecided` show how much of the proof survives the rewrite",
+        "proven_on_tree_as_written": base_proven,
+        "per_operator": {r["operator"]: {"sites_rewritten": r["sites"], "violations": len(r["violations"]), "proven": r["proven"], "undecided": r["undecided"]}
+                         for r in results},
+        "unstable": unstable,
+    }
+    for u in unstable:
+        print(f"NOTE metamorphic instability property={run.prop} operator={u['operator']}: {u['new_violations'] or u['errors']}")
